@@ -331,7 +331,9 @@ class SympyCondition(Condition):
 
     def _qasm_(self, args: cirq.QasmArgs, **kwargs) -> str | None:
         text = self.qasm
-        key = f'm_{self.expr.lhs}'
+        # The register of a key is named by the QASM output (keys that are not identifiers are
+        # renamed); without an entry the default name is used.
+        key = args.meas_key_id_map.get(str(self.expr.lhs), f'm_{self.expr.lhs}')
         bit_count = args.meas_key_bitcount.get(key, 1)
         value = int(self.expr.rhs)
         if bit_count > 1 and 0 <= value < 2**bit_count:
@@ -339,4 +341,6 @@ class SympyCondition(Condition):
             # significant bit) while a QASM register is little-endian (bit 0, which holds the first
             # qubit, is the least significant one).
             return f'{key}=={int(format(value, f"0{bit_count}b")[::-1], 2)}'
+        if key != f'm_{self.expr.lhs}':
+            return f'{key}=={self.expr.rhs}'
         return text
